@@ -13,8 +13,9 @@ from vlib import coq, coqio
 
 PID = 'C05'
 GEN = 'gen.c05'
-DEPS = ()
-IMPORTS = 'From Abacus.C05 Require Import Expr Gen Spec Model Run.'
+DEPS = ('HaloTable',)
+IMPORTS = ('From Abacus.HaloTable Require Import Expr Gen Values Show.\n'
+           'From Abacus.C05 Require Import Spec Run.')
 ASSUMPTIONS = [
     'float32/float64 rounding is not modelled: values are exact reals (theorems) / rationals (model runs); the synthetic '
     'raw values are dyadic with few significant bits so that every product and quotient the loader forms is exact in float32',
@@ -31,7 +32,7 @@ MANIFEST = {
     'text': 'tools/gen/c05.py extracts, on every run, the dtype tables, INT16SCALE, the convert_units switch and the 14 '
             'regex-dispatched loader closures of CompaSOHaloCatalog._setup_halo_field_loaders, instantiates every pattern on '
             'every column name and executes the closure symbolically into an expression over raw values, box and '
-            'zspace_to_kms (coq/theories/C05/Gen.v).  About that generated table Coq proves, for all stored values and all '
+            'zspace_to_kms (coq/theories/HaloTable/Gen.v).  About that generated table Coq proves, for all stored values and all '
             'BoxSize, VelZSpace_to_kms > 0: units_factor (converted = stored-unit value x BoxSize / VelZSpace_to_kms / 1 '
             'according to a classification written from the HaloStat documentation), stored_columns, ratio_columns '
             '(int16/32000 x parent, in the same units), code_columns, dispersion_pythagoras (Min^2+Mid^2+Maj^2 = sigmav3d^2 '
